@@ -19,6 +19,11 @@ def cloud(rng, maxpts):
         cy = [rng.choice(ns) for _ in range(k)]
         es = [min(reg[1], max(reg[0], cx[i % k] + rng.randint(-8, 8) / 128.0)) for i in range(npts)]
         ns = [min(reg[3], max(reg[2], cy[i % k] + rng.randint(-8, 8) / 128.0)) for i in range(npts)]
+    if rng.random() < 0.3:      # some points beyond the region's bounds: they belong to the nearest border block
+        for _ in range(rng.randint(1, 3)):
+            k = rng.randrange(npts)
+            es[k] = reg[rng.choice([0, 1])] + rng.choice([-1, 1]) * (2 * rng.randint(0, 63) + 1) / 128.0
+            ns[k] = reg[rng.choice([2, 3])] + rng.choice([-1, 1]) * (2 * rng.randint(0, 63) + 1) / 128.0
     return reg, es, ns
 
 
